@@ -105,3 +105,16 @@ def mk(pid, runs):
 
 mk('C12', [Run('client', quick=12000, thorough=80000, seeds_thorough=8)])
 mk('C20', [Run('client', quick=12000, thorough=80000, seeds_thorough=8)])
+
+
+# C02 covers both roles: broker runs (props_broker) and client runs
+from .props import PROPS, by_core
+from . import props_broker as _pb
+_c02 = PROPS.get('C02')
+if _c02 is not None:
+    _c02.cores = ['broker', 'client']
+    _c02.runs = list(_c02.runs) + [Run('client', quick=8000, thorough=60000, seeds_thorough=6)]
+    _c02.oracle = by_core({'broker': _pb.broker_oracle, 'client': client_oracle})
+    _c02.nontrivial = by_core({'broker': _pb.broker_nontrivial, 'client': client_nontrivial})
+    _c02.classes = dict(_c02.classes, early_ack=early_ack, ping_slot=ping_slot, dup_filter_cb=dup_filter_cb)
+    _c02.assumptions = list(_c02.assumptions) + CLIENT_ASSUMPTIONS
